@@ -12,6 +12,7 @@ from geostructures import (Coordinate, GeoBox, GeoCircle, GeoEllipse, GeoLineStr
                            GeoRing, MultiGeoLineString, MultiGeoPoint, MultiGeoPolygon, FeatureCollection, Track)
 from geostructures.calc import haversine_distance_meters as hav, inverse_haversine_degrees as dest  # noqa: E402
 from shapes import mk_dt  # noqa: E402
+import c09c  # noqa: E402  (1% clause: real-number model of curved bounds, its translator tie and interval correspondence)
 import gen_bounds  # noqa: E402  (tools/: translator tie for bounds / rectangles / farthest-vertex circles)
 from lib import REPO  # noqa: E402
 
@@ -110,7 +111,7 @@ def true_extent_curve(center, radius_fn, a0, a1, n=3600):
 
 def main():
     ck = Check('C09')
-    ck.build_theories(['theories/Props/C09.vo', 'theories/Props/C09b.vo', 'theories/Props/C09c.vo', 'theories/Corr/BoundsK.vo'])
+    ck.build_theories(['theories/Props/C09.vo', 'theories/Props/C09b.vo', 'theories/Props/C09c.vo', 'theories/Corr/BoundsK.vo', 'theories/Corr/BoundsCurveK.vo'])
     rep = gen_bounds.main(REPO, os.path.join(ck.rundir, 'BoundsGen.v'))   # bounds / rectangles / circles regenerated from the source ...
     ck.gen('BoundsGen.v', rep, 'BoundsGenEq.v')                           # ... proved equal to BoundsM / ShapeM.multi_bounds for all arguments
     ck.props('Props/C09.v')
@@ -438,19 +439,23 @@ def main():
         ck.violation({'kind': 'model-vs-implementation', 'case': meta[i], 'gallina_case': cases[i], 'theorems': 'C09_* (Props/C09.v)'})
     for pv in prop_viol[:4]:
         ck.violation({'kind': 'property-fails-on-implementation', 'case': pv})
-    ck.finish(rule='seeded random vertex shapes on a half-degree grid (polygons, linestrings incl. retraced, points, boxes), their circumscribing '
+    c09c.run(ck)
+    ck.finish(rule=c09c.RULE + '. ' + 'seeded random vertex shapes on a half-degree grid (polygons, linestrings incl. retraced, points, boxes), their circumscribing '
                    'rectangles, unions over multi-shapes / FeatureCollection / Track, centroid+farthest-vertex circles (linestring, multi-*, wedge) with the '
                    'implementation own distances as order-preserving integers, box circles; FIXED corpora (same for every seed) for the clauses no theorem '
                    'decides: curved-shape circles, curved bounds vs densely sampled true extents (1%), Welzl polygon circle (12 polygons x 8 RNG seeds). '
                    'non-trivial = distinct vertex sets / bounds lists / distance lists',
               assumptions=['distance function abstract in the theorems (any function); C07 relates it to the great circle',
-                           'NOT decided by proof: polygon Welzl circle (correctness, minimality, seed independence), 1% figure for curved bounds, '
-                           '1e-6 enclosure for circle/ellipse/ring circles - exercised on fixed corpora only'])
+                           'NOT decided by proof: polygon Welzl circle (correctness, minimality, seed independence), the 1% figure for WEDGE bounds, '
+                           '1e-6 enclosure for circle/ellipse/ring circles in floats - exercised on fixed corpora only'] + c09c.ASSUMPTIONS)
 
 
 if __name__ == '__main__':
     if '--replay' in sys.argv:
         import json
-        print(json.dumps(json.load(open(sys.argv[sys.argv.index('--replay') + 1])), indent=1))
+        r = json.load(open(sys.argv[sys.argv.index('--replay') + 1]))
+        print(json.dumps(r, indent=1))
+        if isinstance(r.get('case'), dict) and r['case'].get('k') == 'curved-bounds':
+            c09c.replay(r['case'])
     else:
         main()
